@@ -105,6 +105,25 @@ structure UnpackInfo where
   typeflag : Char
   deriving DecidableEq, Repr
 
+/-! ### pieces used by the translation of `readRules` -/
+
+/-- the package-level `defaultExclusions` (the extracted rule table, see Ignore.lean) -/
+def defaultExclusions : List Rule := Slug.defaultRules
+/-- `rule{}` -/
+def zeroRule : Rule := { val := [], negated := false, negAfter := false }
+/-- `make([]rule, n)` -/
+def zeroRules (n : Int) : List Rule := List.replicate n.toNat zeroRule
+def lenRules (rs : List Rule) : Int := rs.length
+/-- `copy(dst, src)`: the first `min(len dst, len src)` elements of `dst` are replaced -/
+def copyRules (dst src : List Rule) : List Rule := src.take dst.length ++ dst.drop src.length
+/-- `rs[i]` (out of range: the zero rule; Go panics) -/
+def ruleAt (rs : List Rule) (i : Int) : Rule := if i < 0 then zeroRule else (rs[i.toNat]?).getD zeroRule
+/-- `rs[i].field = v`, as an update of element `i` -/
+def setRuleAt (rs : List Rule) (i : Int) (f : Rule → Rule) : List Rule :=
+  if i < 0 then rs else rs.modify i.toNat f
+/-- the values `n, n-1, …, 0` of a loop `for i := n; i >= 0; i--` (none when `n < 0`) -/
+def rangeDown (n : Int) : List Int := if n < 0 then [] else ((List.range (n.toNat + 1)).map (fun (k : Nat) => Int.ofNat k)).reverse
+
 theorem index_some {p s : Str} {i : Nat} (h : indexOf p s = some i) : index s p = (i : Int) := by
   simp [index, h]
 theorem index_none {p s : Str} (h : indexOf p s = none) : index s p = -1 := by
